@@ -3,9 +3,10 @@ from __future__ import annotations
 
 import ast
 
-from engine.cfg import CFG, normalise_compare, atoms
+from engine.cfg import CFG, normalise_compare, atoms, A
 from engine.effects import WriteSets, CONTAINER_MUTATORS, always_raises
 from engine.model import src, stmt_key, dotted, AnalysisError
+from engine import pat
 from engine.util import calls_with_nodes, where, own_nodes
 
 RULES = {
@@ -286,7 +287,7 @@ def run(model, rep, tier):
     if len(loops) == 1:
         norm = normalise_compare(loops[0].ast.test)
         at = atoms(norm)
-        okk = norm[0] == "and" and ("self._versions[0].id", "<", "least_kept") in at and any("_pruning_policy" in a[0] for a in at)
+        okk = norm[0] == "and" and A("self._versions[0].id", "<", "least_kept") in at and any("_pruning_policy" in a[0] for a in at)
         pops = [n for n in cfg.nodes if isinstance(n.ast, ast.Expr) and src(n.ast) == "self._versions.popleft()"]
         okk = okk and len(pops) == 1 and cfg.edge_dominated(pops[0].id, {(loops[0].id, "t")})
     rep.check(okk, "R-11.4", pr.qualname, where(pr, pr.node), "prunes the oldest version only while `_versions[0].id < least_kept and policy(...)`",
